@@ -386,7 +386,76 @@ def plan_c13(run, prop, tier):
     return acc
 
 
+def cfg_mergegen(cap, gids, hids, maxg, maxh, maxextra, withreads, maxn=2):
+    return ("INIT Init\nNEXT Next\nCONSTANTS Cap = %d GIds = %s HIds = %s Labels = {\"a\", \"b\"} MaxG = %d MaxH = %d MaxExtra = %d WithReads = %s\n"
+            " MaxN = %d MaxGroups = 14 MaxGroupSize = 16\nCHECK_DEADLOCK FALSE\n"
+            % (cap, int_set(gids), int_set(hids), maxg, maxh, maxextra, "TRUE" if withreads else "FALSE", maxn))
+
+
+MERGE_TOKENS = [
+    {"labels": {"a": "α0", "b": "foo"}, "vals": {"x": "01-02-03"}},
+    {"labels": {"a": "ρ", "b": "α1"}, "vals": {"x": "--"}},                                        # a zero-length datum
+    {"labels": {"a": "x", "b": "𝜑"}, "vals": {"x": "00-01-02-03-04-05-06-07-08-09-0A-0B"}},      # heap encoding
+]
+
+
+def e4_merge(run, acc, name, cfg, runs, stride=1):
+    path, cached = vlib.emit_ts(run, "MergeGen", cfg, workers=8, timeout=3000)
+    if "CONTRACT-VIOLATION" in open(path).read(200000):
+        raise ToolError("MergeGen: the model itself violates the merge contract")
+    for k, (n, cap, tok) in enumerate(runs):
+        j = vlib.merge_run(run, [path], MERGE_TOKENS[tok], n, cap, stride=stride, offset=k % stride)
+        acc.states += j["executed"]
+        acc.transitions += j["executed"] + j["stats"].get("reads", 0)
+        rec = {k2: j[k2] for k2 in ("vectors", "executed", "mismatching", "by_signature", "stats", "n", "cap")}
+        rec["generator"] = name
+        rec["tokens"] = MERGE_TOKENS[tok]
+        acc.e2.append(rec)
+        if j["samples"]:
+            acc.samples.append({"engine": "E2 merge scenarios", "scenario": j["samples"][0]})
+        if j["executed"] == 0:
+            raise ToolError("vacuity: no merge scenario executed")
+        if j["witnesses"]:
+            v = vlib.judge(run, j["witness_file"], n)
+            acc.traces += len(j["witnesses"])
+            wit = {w["t"]: w for w in j["witnesses"]}
+            for (t, line, prop, what) in v["fails"]:
+                w = wit.get(t)
+                acc.fails.append({"prop": prop, "what": what, "source": f"E2 merge scenarios {name} N={n} cap={cap}",
+                                  "replay": {"n": n, "cap": cap, "calls": w["calls"]} if w else None, "sig": w["sig"] if w else ""})
+            rec["witnesses_judged"] = len(j["witnesses"])
+            rec["witness_verdicts"] = sorted({f[2] for f in v["fails"]})
+
+
+def plan_merge(run, prop, tier):
+    """C11/C12: TLC enumerates every scenario (two trees + extras, data placements incl. already-read data, every `left`),
+    checks the contract on the model (E1) and prints the expected result; the harness executes every scenario."""
+    acc = Acc()
+    if prop == "C11":
+        e4_merge(run, acc, "trees g<=2 x h<=3, reads", cfg_mergegen(6, [0, 1], [1, 2, 3], 2, 3, 0, True), [(2, 6, 0), (2, 9, 1), (16, 64, 2)])
+        e4_merge(run, acc, "trees g<=2 x h<=2 + extras<=2", cfg_mergegen(6, [0, 1], [0, 1, 2, 3], 2, 2, 2, False), [(2, 6, 1)], stride=3)
+        if tier == "thorough":
+            e4_merge(run, acc, "trees g<=3 x h<=3, reads", cfg_mergegen(7, [0, 1, 2], [1, 2, 3], 3, 3, 0, True), [(2, 7, 0), (3, 16, 1), (16, 256, 2)])
+    else:
+        e4_merge(run, acc, "trees g<=2 x h<=2 + extras<=2", cfg_mergegen(6, [0, 1], [0, 1, 2, 3], 2, 2, 2, False), [(2, 6, 0), (2, 8, 1), (16, 64, 2)])
+        e4_merge(run, acc, "trees g<=2 x h<=3, reads", cfg_mergegen(6, [0, 1], [1, 2, 3], 2, 3, 0, True), [(2, 6, 2)], stride=3)
+        if tier == "thorough":
+            e4_merge(run, acc, "trees g<=2 x h<=3 + extras<=2", cfg_mergegen(7, [0, 1], [0, 1, 2, 3, 4], 2, 3, 2, False), [(2, 7, 0), (16, 32, 1)])
+    s = vlib.seed()
+    if tier == "quick":
+        plan = [dict(profile="merge", n=2, cap=32, steps=1500, seed=s * 100 + 31, window=12),
+                dict(profile="merge", n=16, cap=256, steps=1500, seed=s * 100 + 32, window=200),
+                dict(profile="merge", n=3, cap=20, steps=1200, seed=s * 100 + 33, window=9)]
+    else:
+        plan = [dict(profile="merge", n=n, cap=cap, steps=5000, seed=s * 1000 + 90 + i, window=w)
+                for i, (n, cap, w) in enumerate([(1, 16, 8), (2, 32, 12), (3, 20, 9), (4, 64, 40), (8, 128, 100), (16, 256, 200), (16, 24, 14)])]
+    e3_drive(run, acc, plan, label="E3 merges")
+    return acc
+
+
 PLANS = {p: plan_gc for p in ("C01", "C02", "C03", "C04", "C06")}
+PLANS["C11"] = plan_merge
+PLANS["C12"] = plan_merge
 PLANS["C13"] = plan_c13
 PLANS["C05"] = plan_c05
 PLANS["C08"] = plan_twin
